@@ -38,6 +38,9 @@ pub struct SetShape {
     /// *less* than its neighbours although it is longer); 2 = filled with 0s and placed last
     #[serde(default)]
     pub slot_shape: u8,
+    /// the second mutation of a duplicated key carries another value (a write after a write, or a delete after a write)
+    #[serde(default)]
+    pub dup_other_value: u8,
 }
 
 fn build_set(s: &SetShape) -> SolutionSet {
@@ -81,11 +84,21 @@ fn build_set(s: &SetShape) -> SolutionSet {
         }
         match s.dup {
             1 if !sols[0].state_mutations.is_empty() => {
-                let m = sols[0].state_mutations[0].clone();
+                let mut m = sols[0].state_mutations[0].clone();
+                match s.dup_other_value {
+                    1 => m.value = vec![77],
+                    2 => m.value = vec![],
+                    _ => {}
+                }
                 sols[0].state_mutations.push(m);
             }
             2 | 3 if s.solutions >= 2 && !sols[0].state_mutations.is_empty() => {
-                let m = sols[0].state_mutations[0].clone();
+                let mut m = sols[0].state_mutations[0].clone();
+                match s.dup_other_value {
+                    1 => m.value = vec![77],
+                    2 => m.value = vec![],
+                    _ => {}
+                }
                 sols[1].state_mutations.push(m);
             }
             _ => {}
@@ -153,6 +166,7 @@ fn set_items(_t: Tier) -> Box<dyn Iterator<Item = SetShape>> {
         dup: 0,
         focus: false,
         slot_shape: 0,
+        dup_other_value: 0,
     };
     let mut v = Vec::new();
     // every limit alone and all pairwise combinations of two limits at {0,1,L-1,L,L+1}
@@ -195,11 +209,14 @@ fn set_items(_t: Tier) -> Box<dyn Iterator<Item = SetShape>> {
     for dup in 0..4u8 {
         for sols in [1usize, 2, 3, 100] {
             for muts in [0usize, 1, 2, 999, 1000] {
-                let mut s = base.clone();
-                s.dup = dup;
-                s.solutions = sols;
-                s.mutations = muts;
-                v.push(s);
+                for other in 0..3u8 {
+                    let mut s = base.clone();
+                    s.dup = dup;
+                    s.solutions = sols;
+                    s.mutations = muts;
+                    s.dup_other_value = other;
+                    v.push(s);
+                }
             }
         }
     }
@@ -217,7 +234,7 @@ fn set_items(_t: Tier) -> Box<dyn Iterator<Item = SetShape>> {
 
 fn set_random() -> impl Strategy<Value = SetShape> {
     let around = |l: usize| prop_oneof![2 => 0usize..4, 1 => Just(l - 1), 2 => Just(l), 1 => Just(l + 1), 1 => 0usize..=l + 2];
-    (around(100), around(100), around(10_000), around(1000), around(1000), around(10_000), 0u8..4, any::<bool>(), 0u8..3).prop_map(|(solutions, slots, slot_words, mutations, key_words, value_words, dup, focus, slot_shape)| SetShape {
+    (around(100), around(100), around(10_000), around(1000), around(1000), around(10_000), 0u8..4, any::<bool>(), 0u8..3, 0u8..3).prop_map(|(solutions, slots, slot_words, mutations, key_words, value_words, dup, focus, slot_shape, dup_other_value)| SetShape {
         solutions,
         slots,
         slot_words,
@@ -227,6 +244,7 @@ fn set_random() -> impl Strategy<Value = SetShape> {
         dup,
         focus,
         slot_shape,
+        dup_other_value,
     })
 }
 
@@ -332,6 +350,10 @@ fn pred_items(_t: Tier) -> Box<dyn Iterator<Item = PredShape>> {
                 }
             }
         }
+    }
+    // every out-of-range recovery id (4..=253) on an otherwise valid signed contract
+    for bit in 0..250u16 {
+        v.push(PredShape { nodes: 1, edges: 1, predicates: 1, sig: 2, bit });
     }
     // far beyond the limits (counts that wrap narrow integer types)
     for big in [65_535usize, 65_536, 65_537, 66_536, 131_072] {
